@@ -13,7 +13,9 @@ CHECKS = {
         "text": "Every one of the 1,774,545 ticks is converted by the real get_sqrt_ratio_at_tick and compared with "
         "sqrt(1.0001^tick)*2^96 at 90 digits (band, strict monotonicity, boundary constants) in both tiers; the reverse "
         "conversion is probed on/next to/between the real tick boundaries (every third tick quick, every tick thorough) and must "
-        "return the floor; price helpers and nearest_usable_tick are sampled over decimals, orientations and spacings.",
+        "return the floor; the public wrapper tick_to_sqrt_price_x96 is held to the same band, order and boundary values on every tick; "
+        "price helpers (module level and UniLpMarket.tick_to_price / price_to_tick) and nearest_usable_tick are sampled over decimals, "
+        "orientations and spacings.",
         "note": "Trusted: Python Decimal at prec 90 and Fraction. Reverse direction and helpers are sampled, not exhaustive, over "
         "sqrt prices strictly between boundaries (4 probes per tick).",
     },
@@ -21,9 +23,12 @@ CHECKS = {
         "technique": "reference-model monitor: exact Fraction scaled-balance ledger fed with the same accepted operations, compared after every operation and bar change",
         "text": "Random interleavings of supply/withdraw/borrow/repay (cash, collateral of the same or another token, partial, all, "
         "split in parts) over generated index paths (flat/slow/jumpy, liquidity != borrow index, per token) are run on the real "
-        "AaveV3Market; after every operation and every bar change every position amount is compared with the exact ledger (5e-19), "
-        "wallet deltas and action records with the stated amounts, and fully repaid/withdrawn positions must disappear.",
-        "note": "Sampled sequences (not exhaustive). Sequences stop at the first rejection; liquidation is not triggered here. "
+        "AaveV3Market with deep and shallow wallets; after every operation and every bar change every position amount is compared with the "
+        "exact ledger (5e-19), wallet deltas and action records with the stated amounts, fully repaid/withdrawn positions must disappear, a "
+        "refused request (more than the wallet or the position holds) must leave ledger and wallet where they were, and a repayment larger "
+        "than the debt (by the token's last decimal, a few wei, 1e-12, half more) must be refused.",
+        "note": "Sampled sequences (not exhaustive); they continue after a rejection. Liquidation is not triggered here. A subtraction that "
+        "leaves a scaled balance under 1e-18 clears the position (the code's quantum, mirrored exactly). "
         "Wallet equality is up to the Decimal context precision (35 digits).",
     },
     "C03": {
@@ -52,7 +57,7 @@ CHECKS = {
         "technique": "step replay: every recorded LiquidationAction replayed in exact Fraction arithmetic against the state observed before/after each step of update()",
         "text": "Generated portfolios (1-3 collaterals, 1-3 debts, per-token liquidity and borrow indices that differ, debt prices below/above 1) are "
         "followed over bars whose prices are solved so that the health factor lands in chosen bands ((0.95,1), (0.5,0.95], (0,0.5], >=1, exactly "
-        "on 1 / 0.95 and 1e-18 next to them); Market.update() is run directly and through the Actuator loop and each step is checked: iff HF<1, "
+        "on 1 / 0.95 and 1e-18 next to them), or whose prices never move while the borrow indices push the health factor under 1; Market.update() is run directly and through the Actuator loop and each step is checked: iff HF<1, "
         "close factor, seized = repaid value x (1+bonus) at the collateral's own index or everything with the repayment scaled down, wallet "
         "untouched, record = state change, net value drop = bonus x repaid, non-negative amounts, termination condition, no exception.",
         "note": "1e-15 relative + 2e-18 scaled units on amounts; HF within 1e-25 of a threshold may go either way. The choice of the "
@@ -87,7 +92,8 @@ CHECKS = {
     },
     "C16": {
         "technique": "offline checker over a per-bar event log (cash, positions, action records) of real Actuator runs against the settlement rule in Decimal",
-        "text": "Generated hourly option books (calls and puts ITM / ATM / OTM / barely covering the fee, several positions with different "
+        "text": "Generated hourly option books (calls and puts ITM / ATM / OTM / barely covering the fee / so deep in the money that a put pays more "
+        "than one coin per contract, several positions with different "
         "expiries on the hour, between hours, before the first and after the last bar, instruments missing from the expiry-hour book, missing "
         "hours) are run through the real Actuator alone (1 h, 4 h) and next to a 1-min / 5-min co-market, with buy/sell attempted on every bar; "
         "the log is checked for: removal exactly once at the first open bar at or after expiry (never before), one Expired record, payoff = "
@@ -101,8 +107,10 @@ CHECKS = {
         "with 2-6 seeded, state-dependent strategies (idle, LP, aave, all-markets, add_column indicator, a vandal that wrecks its own "
         "markets/broker after its run, a strategy that raises mid-run), permuted orders, 1/2/3/n workers, in-process and forked pool, "
         "seed-chosen sleeps; every strategy writes history, actions, final projection and pid from finalize(), and each managed record must "
-        "equal the record of the same strategy run alone. Evidence lists the distinct pid -> strategies assignments (schedules) observed.",
-        "note": "'Alone' = the manager with that single strategy over an identically rebuilt configuration. Schedules are sampled through sleeps, "
+        "equal the record of the same strategy run alone. Parameter sweeps (the same indicator column under different windows) and strategies "
+        "that read the account history in mid-run are part of the mix. Evidence lists the distinct pid -> strategies assignments (schedules) observed.",
+        "note": "'Alone' = the manager with that single strategy over an identically rebuilt configuration; in half of the cases that record is "
+        "itself compared with the same configuration applied by hand to a bare Actuator. Schedules are sampled through sleeps, "
         "not enumerated; the Windows pool branch and threads > cpu_count are not exercised; a manager timeout gives INCONCLUSIVE.",
     },
     "C05": {
@@ -135,15 +143,18 @@ CHECKS = {
         "even_rebalance, add by price, by tick and by value in all its branches, estimate_amount / estimate_liquidity, remove and collect "
         "(partial, full): return values, wallet balances, position status, market balance and pending fees must agree within 1e-12 relative "
         "(0.1 % for the estimate-based helpers); a rejection must be mirrored by a rejection.",
-        "note": "Prices and paths within one tick of a range bound are excluded (half-open ranges are not mirror-symmetric on a bound), |tick| <= "
-        "330000; after an estimate-based helper deviates by more than 1e-9 within its 0.1 % the rest of that script is not compared. Sampled.",
+        "note": "Three kinds of worlds: tick prices with paths kept 2 ticks off every range bound (fee accrual classifies by tick over half-open "
+        "ranges, which is not mirror-symmetric on a bound); prices moved 0.05-0.95 of a tick into their tick; fee-free worlds whose closes sit "
+        "exactly on range bounds (only the sqrt-price based results are comparable there). In the last two every token amount is measured "
+        "against the largest amount of that token seen so far. |tick| <= 330000; after an estimate-based helper deviates by more than 1e-9 within its 0.1 % the rest of that script is not compared. Sampled.",
     },
     "C17": {
         "technique": "reference-model monitor: integer re-implementation of the GMX v1 Vault / GlpManager fee and mint/redeem rules and a float re-derivation of the v2 deposit/withdraw formulas, plus a same-bar round-trip monitor",
         "text": "Generated v1 pool states (token weights, USDG amounts below / at / above target and crossing it, zero target, 6/8/18-decimals tokens, "
         "amounts from 1 wei to 10 % of the pool) and real avalanche rows, v2 pools (balanced .. 10:1, virtual inventories, impact pool 0 .. "
         "large): fee bps in [0, 85] and within 1 bp of the Vault rule, minted/redeemed amounts per the round-down steps and token decimals, "
-        "reward accrual pro rata, v2 mint/redeem per pool value per share with fee factors and capped impact, over-redemption rejected, and a "
+        "reward accrual pro rata (token weights changing across bars), v2 mint/redeem per pool value per share with fee factors and capped "
+        "impact (short token on and off its peg) and the figures the result reports about itself, over-redemption rejected, and a "
         "buy-then-redeem round trip in one bar never returns more than was paid.",
         "note": "1 bp of the gross amount + rounding quanta on v1 amounts; float bounds on v2; within 2 wei of a fee-rule jump either side is "
         "accepted; v2 deposits the contract would revert are not issued. One protocol-faithful known finding (GM positive price impact > fees).",
@@ -166,8 +177,8 @@ CHECKS = {
         "collateral, several vaults, operation sequences incl. requests at (1 +- 1e-6)x the limit: mint / ETH withdrawal / LP withdrawal "
         "accepted only at >= 1.5x and >= 0.5 ETH (must-accept with margin), bar-end liquidation iff below 1.5x with the two-stage amounts (LP "
         "redeemed first with 2 % bounty, then half / all of the debt at TWAP oSQTH price x 1.1 capped at the collateral), non-negative vault "
-        "fields, wallet/vault moves equal to the stated oSQTH and ETH.",
-        "note": "Band 1e-9 around each limit (float TWAP). A negative vault is reported once and the rest of that case is not evaluated; a bounty "
+        "fields, wallet/vault moves equal to the stated oSQTH and ETH, nothing moved by a refused request; one wallet in four has never held oSQTH.",
+        "note": "Band 1e-9 around each limit (float TWAP). An operation that needs (nearly) more than the wallet holds gets no verdict. A negative vault is reported once and the rest of that case is not evaluated; a bounty "
         "stopped at the vault's collateral is accepted. An exact collateral == payment tie is not generated. Sampled paths and sequences.",
     },
     "C15": {
@@ -186,7 +197,8 @@ CHECKS = {
         "text": "Multi-market accounts (uniswap+aave+gmx, squeeth with its pool and LP positions lent to / returned from / redeemed by a vault, "
         "deribit ETH/BTC-quoted next to a minutely pool with cash moved on closed bars and options settling in the loop, all six market types "
         "+ GMX v2, real-data slices) are run through the real Actuator (1- and 5-min bars, operations in every phase) with the account quote "
-        "equal to and different from each market's quote and price frames on and off the pool prices; frozen scenes are queried through "
+        "equal to and different from each market's quote, price frames on and off the pool prices, and (one run in five) a wallet that may be "
+        "overdrawn (allow_negative_balance); frozen scenes are queried through "
         "Broker.get_account_status after every accepted or rejected operation. At every bar / query the reported asset value, wallet "
         "balances, each market's net value, the total, the sum formula with the quote-token conversion, the bar-end holdings and the "
         "account_status_df row are compared with a Fraction valuation computed from the state projection and the harness's own copies of "
@@ -200,7 +212,8 @@ CHECKS = {
         "text": "Generated raw histories of every market type (uniswap float/int64 ticks, aave, uniswap+aave, squeeth with its pool and live TWAP, "
         "hourly deribit books next to a minutely pool in both attach orders, deribit alone, GMX v1, GMX v2) are prepared by demeter's own code "
         "(add_statistic_column, get_price_from_data helpers, set_token_data, set_price, every _resample) and run at 1min/5min/15min/1h under "
-        "scripts whose every decision is seeded by the snapshot they were handed and sized by balances, get_max_* and TWAP helpers. For 2-3 "
+        "scripts whose every decision is seeded by the snapshot they were handed and by what the markets' read-only helpers answer in that "
+        "hook (estimate_cost, estimate_amount / estimate_liquidity, get_max_*, TWAP, fee points, balances). For 2-3 "
         "cuts per history (first bar, last-but-one, mid, open position, mid-bin, book-hour edge) the future is regenerated (same length, "
         "shorter, longer, none) and every bar wholly inside the shared prefix must have identical account row, identical snapshots in "
         "before_bar/on_bar/after_bar (digested inside the hook) and identical recorded actions. Every supplied frame, and the frames held at "
@@ -216,7 +229,8 @@ CHECKS = {
         "GMX v1/v2, broker wallet ops) are driven with random operation sequences whose arguments are chosen to be rejected for every "
         "cause (each token short, unsafe HF / collateral ratio, dust, flag mismatch, zero/negative/oversized amounts, unknown keys, closed "
         "market, thin book, price not in book); around each raising call the projection of wallet, positions, visible book and action log "
-        "must be identical (multi-step helpers: identical to a transaction boundary). Evidence lists the rejection sites reached.",
+        "must be identical (multi-step helpers: identical to a transaction boundary); tokens the wallet holds nothing of are, half of the "
+        "time, not registered in it. Evidence lists the rejection sites reached.",
         "note": "State = what public accessors show (vmon/drive.py project); caches and has_update flags are outside it. Sampled states and "
         "arguments; a rejection cause whose site never appears in the evidence was not exercised.",
     },
